@@ -484,15 +484,9 @@ Definition c12_enc (hs : N) (skip_hash : bool) (sum : string) (ver : N) (entries
 
 (* ---- long inputs and long outputs ----
    coqc overflows its (OCaml) stack when it reads back a rendered observable of more than a few
-   10^4 characters, and string literals are slow to parse: the input arrives as a list of
-   numerals, each holding up to 15 bytes below a leading 1 (0x1aabb = [0xaa; 0xbb]), and an
-   observable whose text is long is replaced, on both sides, by its length and a digest. *)
-Fixpoint word_bytes (fuel : nat) (w : N) (acc : bytes) : bytes :=
-  match fuel with
-  | O => acc
-  | S f => if w <=? 1 then acc else word_bytes f (w / 256) (w mod 256 :: acc)
-  end.
-Definition bytes_of_words (l : list N) : bytes := flat_map (fun w => word_bytes 16 w []) l.
+   10^4 characters: an observable whose text is long is replaced, on both sides, by its length and
+   a digest.  Long inputs arrive as a list of hex literals. *)
+Definition unhex_chunks (l : list string) : bytes := flat_map unhex l.
 
 Fixpoint sdigest (s : string) (h : N) : N :=
   match s with
@@ -504,7 +498,7 @@ Definition c12_short (o : out) : out :=
   let s := render o in
   if short_limit <? N.of_nat (String.length s) then OList [OSym "long"; ONat (String.length s); ON (sdigest s 0)] else o.
 
-Definition c12_decw (hs : N) (skip_hash : bool) (sums : list string) (data : list N) : out :=
-  let d := bytes_of_words data in
+Definition c12_decs (hs : N) (skip_hash : bool) (sums : list string) (data : list string) : out :=
+  let d := unhex_chunks data in
   let Hf := fun prefix : bytes => unhex (nth (List.length d - N.to_nat hs - List.length prefix) sums EmptyString) in
   c12_short (res_out index_out (decode (N.to_nat hs) Hf skip_hash d)).
